@@ -16,10 +16,10 @@ pub fn expand(input: &DeriveInput, trait_name: &str) -> TokenStream {
     let exprs = match input.data {
         Data::Struct(ref data_struct) => match data_struct.fields {
             Fields::Unnamed(ref fields) => {
-                tuple_exprs(&unnamed_to_vec(fields), &method_ident)
+                tuple_exprs(&unnamed_to_vec(fields), &trait_ident, &method_ident)
             }
             Fields::Named(ref fields) => {
-                struct_exprs(&named_to_vec(fields), &method_ident)
+                struct_exprs(&named_to_vec(fields), &trait_ident, &method_ident)
             }
             _ => panic!("Unit structs cannot use derive({trait_name})"),
         },
